@@ -1,12 +1,299 @@
 import IpaVerif.Model.Util
-/-! Line-protocol handlers for property C14 (model side). Import-free. -/
+import IpaVerif.Model.CircularBuf
+import IpaVerif.Model.QueueSpec
+import IpaVerif.Model.OrderingSender
+import IpaVerif.Model.SenderSpec
+import IpaVerif.Model.UnorderedReceiver
+/-! Line-protocol handlers for property C14 (model side). Import-free.
+
+`c14.circ <cap> <ws> <rs> <op,op,…>` with ops `w<hex>` (next().write), `t` (take), `c` (close);
+response: one item per op separated by `;`: `<out>|<len>|<can_read>|<can_write>|<closed>` where
+`<out>` is `ok` or the hex of the bytes returned by `take` (`-` = empty); the trace ends with
+`panic:<tag>` at the first panic; `new` panicking is the single item `panic:<tag>`. -/
 namespace IpaVerif.Driver.C14
 open IpaVerif.Util
 
-/-- `some response` if the request belongs to this property, else `none`. -/
-def handle (_toks : List String) : Option String := none
+section Circ
+open IpaVerif.CircularBuf
 
-/-- Property oracle on (request, implementation response): `some "holds"`, `some "fails <why>"`, or `none`. -/
-def oracle (_toks : List String) (_impl : String) : Option String := none
+def parseCircOp (s : String) : Option Op :=
+  match s.toList with
+  | ['t'] => some .take
+  | ['c'] => some .close
+  | 'w' :: rest => (parseHexBytes (String.ofList rest)).map .write
+  | _ => none
+
+def parseCircOps (s : String) : Option (List Op) :=
+  if s = "-" then some [] else (s.splitOn ",").mapM parseCircOp
+
+def showObs (o : Obs) : String :=
+  s!"{o.len}|{boolStr o.canRead}|{boolStr o.canWrite}|{boolStr o.closed}"
+
+def showItem : Out × Option Obs → String
+  | (.panic msg, _) => s!"panic:{msg}"
+  | (.done, some o) => s!"ok|{showObs o}"
+  | (.bytes v, some o) => s!"{bytesHex v}|{showObs o}"
+  | (.done, none) => "ok"
+  | (.bytes v, none) => bytesHex v
+
+def showTrace (t : List (Out × Option Obs)) : String :=
+  if t.isEmpty then "-" else String.intercalate ";" (t.map showItem)
+
+def circ (cap ws rs : Nat) (ops : List Op) : String :=
+  match Buf.new cap ws rs with
+  | .error e => s!"panic:{e}"
+  | .ok b => showTrace (run b ops)
+
+/-- Panic items are compared up to their message by the oracle. -/
+def stripPanic (s : String) : String :=
+  String.intercalate ";" ((s.splitOn ";").map (fun it => if it.startsWith "panic" then "panic" else it))
+
+/-- Spec side: the reference FIFO queue of `QueueSpec` (no cursors, no vector). -/
+def circSpec (cap ws rs : Nat) (ops : List Op) : String :=
+  if cap = 0 ∨ ws = 0 ∨ rs = 0 ∨ cap % ws ≠ 0 ∨ rs % ws ≠ 0 then "panic"
+  else stripPanic (showTrace (specRun ⟨cap, ws, rs⟩ ⟨[], false⟩ ops))
+
+end Circ
+
+/-! ### `c14.sender <cap> <ws> <rs> <op,…>`: ops `s<t>.<i>.<hex>` (poll Send), `c<t>.<i>` (poll Close),
+`t<t>` (poll take_next), `<t>` = waker id.  Response item per poll: `<res>|<woken>` with `<res>` ∈
+`R` (Ready), `P` (Pending), `N` (Ready(None)), `=<hex>` (Ready(Some(chunk))) and `<woken>` the ids
+woken during the poll in order, `.`-separated (`-` = none); the trace ends at `panic:<tag>`. -/
+namespace Sender
+open IpaVerif.OrderingSender
+
+def parseOp (s : String) : Option Op :=
+  match s.toList with
+  | 's' :: rest =>
+    match (String.ofList rest).splitOn "." with
+    | [t, i, h] => do
+        let m ← if h = "" then some [] else parseHexBytes h
+        pure (.pollSend (← t.toNat?) (← i.toNat?) m)
+    | _ => none
+  | 'c' :: rest =>
+    match (String.ofList rest).splitOn "." with
+    | [t, i] => do pure (.pollClose (← t.toNat?) (← i.toNat?))
+    | _ => none
+  | 't' :: rest => do pure (.pollTake (← (String.ofList rest).toNat?))
+  | _ => none
+
+def parseOps (s : String) : Option (List Op) :=
+  if s = "-" then some [] else (s.splitOn ",").mapM parseOp
+
+def showRes : Res → String
+  | .ready => "R"
+  | .pending => "P"
+  | .finished => "N"
+  | .chunk v => "=" ++ bytesHex v
+
+def showWoken (w : List Nat) : String :=
+  if w.isEmpty then "-" else String.intercalate "." (w.map toString)
+
+def showItem : Except String Out → String
+  | .error e => s!"panic:{e}"
+  | .ok o => s!"{showRes o.res}|{showWoken o.woken}"
+
+def model (cap ws rs : Nat) (ops : List Op) : String :=
+  match State.new cap ws rs with
+  | .error e => s!"panic:{e}"
+  | .ok s =>
+    let t := run s ops
+    if t.isEmpty then "-" else String.intercalate ";" (t.map showItem)
+
+def parseWoken (s : String) : Option (List Nat) :=
+  if s = "-" then some [] else (s.splitOn ".").mapM String.toNat?
+
+/-- Spec-side check of an implementation trace: results equal those of `Spec`, every required
+waker is among the woken ones, and (directly) the emitted chunks concatenate to a prefix of the
+messages accepted, which were accepted in index order. -/
+def check (cap ws rs : Nat) (ops : List Op) (impl : String) : Option String := Id.run do
+  if cap = 0 ∨ ws = 0 ∨ rs = 0 ∨ cap % ws ≠ 0 ∨ rs % ws ≠ 0 then
+    return (if impl.startsWith "panic" then none else some "constructor accepted an invalid configuration")
+  let items := if impl = "-" then [] else impl.splitOn ";"
+  let mut s : Spec := { cap, ws, rs }
+  let mut rest := items
+  let mut accepted : List Nat := []
+  let mut emitted : List Nat := []
+  let mut nextIdx := 0
+  for op in ops do
+    match rest with
+    | [] => return some "trace shorter than the schedule"
+    | it :: more =>
+      rest := more
+      match s.step op with
+      | none =>
+        if it.startsWith "panic" then return none
+        else return some s!"expected a panic at {repr op}, got {it}"
+      | some (s', r, req) =>
+        match it.splitOn "|" with
+        | [res, wk] =>
+          if res ≠ showRes r then return some s!"result {res} but the ordered queue gives {showRes r}"
+          let some woken := parseWoken wk | return some "unparsable woken list"
+          for w in req do
+            if !woken.contains w then return some s!"lost wake-up: waker {w} must be woken by this poll"
+          match op, r with
+          | .pollSend _ i m, .ready =>
+            if i ≠ nextIdx then return some "message accepted out of index order"
+            nextIdx := nextIdx + 1
+            accepted := accepted ++ m
+          | .pollClose _ i, .ready =>
+            if i ≠ nextIdx then return some "close accepted out of index order"
+            nextIdx := nextIdx + 1
+          | _, .chunk v => emitted := emitted ++ v
+          | _, _ => pure ()
+          if !(emitted.isPrefixOf accepted) then return some "emitted bytes are not a prefix of msg0‖msg1‖…"
+          s := s'
+        | _ => return some s!"unparsable item {it}"
+  if !rest.isEmpty then return some "trace longer than the schedule"
+  return none
+
+end Sender
+
+/-! ### `c14.recv <sz> <cap> <op,…>`: ops `f<hex>` (a chunk becomes available; `f` = empty chunk),
+`e` (the stream ends), `r<t>.<i>` (poll `recv(i)` with waker `t`).  Response item: `<res>|<woken>`,
+`<res>` ∈ `-` (feed/end), `P`, `=<hex>` (Ready(Ok(msg))), `E<n>` (EndOfStream(n)); ends at `panic:<tag>`. -/
+namespace Recv
+open IpaVerif.UnorderedReceiver
+
+def parseOp (s : String) : Option Op :=
+  match s.toList with
+  | ['e'] => some .finish
+  | 'f' :: rest => if rest.isEmpty then some (.feed []) else (parseHexBytes (String.ofList rest)).map .feed
+  | 'r' :: rest =>
+    match (String.ofList rest).splitOn "." with
+    | [t, i] => do pure (.recv (← t.toNat?) (← i.toNat?))
+    | _ => none
+  | _ => none
+
+def parseOps (s : String) : Option (List Op) :=
+  if s = "-" then some [] else (s.splitOn ",").mapM parseOp
+
+def showRes : Res → String
+  | .none => "-"
+  | .pending => "P"
+  | .ok m => "=" ++ bytesHex m
+  | .eos n => s!"E{n}"
+
+def showItem : Except String Out → String
+  | .error e => s!"panic:{e}"
+  | .ok o => s!"{showRes o.res}|{Sender.showWoken o.woken}"
+
+def model (sz cap : Nat) (ops : List Op) : String :=
+  match State.new sz cap with
+  | .error e => s!"panic:{e}"
+  | .ok s =>
+    let t := run s ops
+    if t.isEmpty then "-" else String.intercalate ";" (t.map showItem)
+
+/-- Spec side, no ring, no spare: request `i` gets bytes `[i·sz, (i+1)·sz)` of everything fed so
+far, in index order; `EndOfStream` iff the stream ended short; a request whose turn has come is
+never left parked without a wake-up; a feed/end wakes the request that was waiting for data. -/
+def check (sz cap : Nat) (ops : List Op) (impl : String) : Option String := Id.run do
+  if cap < 2 then
+    return (if impl.startsWith "panic" then none else some "capacity < 2 accepted")
+  let items := if impl = "-" then [] else impl.splitOn ";"
+  let mut rest := items
+  let mut fed : List Nat := []
+  let mut ended := false
+  let mut next := 0
+  let mut parked : List (Nat × Nat) := []     -- (index, waker) whose last poll was Pending
+  let mut dataWait : Option Nat := none       -- waker of the poll of `next` that found no data
+  for op in ops do
+    match rest with
+    | [] => return some "trace shorter than the schedule"
+    | it :: more =>
+      rest := more
+      if it.startsWith "panic" then
+        match op with
+        | .recv _ i => if i < next then return none else return some s!"unexpected panic at recv({i})"
+        | _ => return some "unexpected panic"
+      match it.splitOn "|" with
+      | [res, wk] =>
+        let some woken := Sender.parseWoken wk | return some "unparsable woken list"
+        match op with
+        | .feed c =>
+          fed := fed ++ c
+          if res ≠ "-" then return some "feed result"
+          if let some w := dataWait then
+            if !woken.contains w then return some s!"lost wake-up: waker {w} waits for stream data"
+          dataWait := none
+        | .finish =>
+          ended := true
+          if let some w := dataWait then
+            if !woken.contains w then return some s!"lost wake-up: waker {w} waits for the end of stream"
+          dataWait := none
+        | .recv t i =>
+          if i < next then return some s!"recv({i}) after it was fulfilled must panic"
+          let want :=
+            if i > next then "P"
+            else if (i + 1) * sz ≤ fed.length then "=" ++ bytesHex ((fed.drop (i * sz)).take sz)
+            else if ended then s!"E{i}" else "P"
+          if res ≠ want then return some s!"recv({i}) returned {res}, expected {want}"
+          if res = "P" then
+            parked := (i, t) :: parked.filter (fun p => p.1 != i)
+            if i = next then dataWait := some t
+          else
+            parked := parked.filter (fun p => p.1 != i)
+            if res.startsWith "=" then next := next + 1
+        parked := parked.filter (fun p => !woken.contains p.2)
+        -- a request whose turn has come must not be left parked (unless it waits for data itself)
+        for p in parked do
+          if p.1 = next ∧ dataWait ≠ some p.2 ∧ (next + 1) * sz ≤ fed.length then
+            return some s!"lost wake-up: request {p.1} (waker {p.2}) is next but was never woken"
+          if p.1 = next ∧ dataWait = none then
+            return some s!"lost wake-up: request {p.1} (waker {p.2}) is next but was never woken"
+      | _ => return some s!"unparsable item {it}"
+  if !rest.isEmpty then return some "trace longer than the schedule"
+  return none
+
+end Recv
+
+def handle (toks : List String) : Option String :=
+  match toks with
+  | ["c14.circ", cap, ws, rs, ops] => some <| Id.run do
+      let some cap := cap.toNat? | return "bad-request"
+      let some ws := ws.toNat? | return "bad-request"
+      let some rs := rs.toNat? | return "bad-request"
+      let some ops := parseCircOps ops | return "bad-request"
+      return circ cap ws rs ops
+  | ["c14.sender", cap, ws, rs, ops] => some <| Id.run do
+      let some cap := cap.toNat? | return "bad-request"
+      let some ws := ws.toNat? | return "bad-request"
+      let some rs := rs.toNat? | return "bad-request"
+      let some ops := Sender.parseOps ops | return "bad-request"
+      return Sender.model cap ws rs ops
+  | ["c14.recv", sz, cap, ops] => some <| Id.run do
+      let some sz := sz.toNat? | return "bad-request"
+      let some cap := cap.toNat? | return "bad-request"
+      let some ops := Recv.parseOps ops | return "bad-request"
+      return Recv.model sz cap ops
+  | _ => none
+
+def oracle (toks : List String) (impl : String) : Option String :=
+  match toks with
+  | ["c14.circ", cap, ws, rs, ops] => some <| Id.run do
+      let some cap := cap.toNat? | return "unknown"
+      let some ws := ws.toNat? | return "unknown"
+      let some rs := rs.toNat? | return "unknown"
+      let some ops := parseCircOps ops | return "unknown"
+      let want := circSpec cap ws rs ops
+      if stripPanic impl = want then return "holds"
+      else return s!"fails ring buffer trace differs from the FIFO byte queue: want {want}"
+  | ["c14.sender", cap, ws, rs, ops] => some <| Id.run do
+      let some cap := cap.toNat? | return "unknown"
+      let some ws := ws.toNat? | return "unknown"
+      let some rs := rs.toNat? | return "unknown"
+      let some ops := Sender.parseOps ops | return "unknown"
+      match Sender.check cap ws rs ops impl with
+      | none => return "holds"
+      | some why => return s!"fails {why}"
+  | ["c14.recv", sz, cap, ops] => some <| Id.run do
+      let some sz := sz.toNat? | return "unknown"
+      let some cap := cap.toNat? | return "unknown"
+      let some ops := Recv.parseOps ops | return "unknown"
+      match Recv.check sz cap ops impl with
+      | none => return "holds"
+      | some why => return s!"fails {why}"
+  | _ => none
 
 end IpaVerif.Driver.C14
